@@ -3,6 +3,7 @@
 // Oracles are the clauses of the property statement, evaluated in exact integer arithmetic; outputs go into
 // exactly-sized guard buffers (ASan-poisoned + canary surroundings), apply_rasterizer draws into a gray8
 // view that is exactly the bounding box (and one that is larger) carved out of a guard buffer.
+#include <iterator>
 #include "vh.hpp"
 #include "guard.hpp"
 #include <boost/gil.hpp>
@@ -116,6 +117,15 @@ VH_GROUP(line)
                     long written = 0; for (long i = 0; i < n; ++i) written += !is_sentinel(p[i]);
                     if (written != n) caps.bad(id(), "count:fewer-than-point_count", std::to_string(written) + " of " + std::to_string(n) + " written");
                     if (!out.intact()) { count_ok = false; caps.bad(id(), "count:wrote-past-point_count", "canary around the output array changed"); }
+                    {
+                        // the same line through an INSERTING output iterator: every assignment emits an element, so a point stored twice
+                        // (harmless when overwriting a pre-sized array) shows as point_count()+1 elements; the sequence must be the same
+                        std::vector<pt> ins; ins.reserve(size_t(n) + 4);
+                        r(std::back_inserter(ins));
+                        ++ctx.witness["line_through_back_inserter"];
+                        if (long(ins.size()) != n) caps.bad(id(), "count:inserter-got-other-than-point_count", std::to_string(ins.size()) + " elements emitted, point_count()=" + std::to_string(n));
+                        else if (written == n) for (long i = 0; i < n; ++i) if (!(ins[size_t(i)] == p[i])) { caps.bad(id(), "inserter-sequence-differs", "element " + std::to_string(i)); break; }
+                    }
                     if (written == n)
                     {
                         if (!(p[0] == s)) caps.bad(id(), "first-not-start", "first=" + pstr(p[0]));
